@@ -379,10 +379,9 @@ func (s *clientSocket) writeWritablePackets(packets ...*parser.Packet) {
 		// The check, `i < len(packets)`, needs to be made every time.
 		for i, count := 0, 0; i < len(packets); i, count = i+1, count+1 {
 			packet := packets[i]
-			if len(packet.Data) > 0 {
-				// Since we're dealing with the polling transport, supportsBinary argument is false.
-				payloadSize += packet.EncodedLen(false)
-			}
+			// Since we're dealing with the polling transport, supportsBinary argument is false.
+			// A packet without data is counted too: its type character (or 'b') takes 1 byte in the payload.
+			payloadSize += packet.EncodedLen(false)
 			if i > 0 && int64(payloadSize) > s.maxPayload {
 				s.debug.Log("send", count, "out of", total)
 				if len(packets) > 0 {
